@@ -1239,3 +1239,89 @@ def t_reserved_names(facts, res, tier):
                         res.fail(key + ":" + pfx, facts.where(fn, bare), "%s takes a global name from the source as written and does not reject the prefix `%s` of the names the compiler generates: a user object of that name and a generated one become the same entry" % (fn["name"], pfx))
     if n == 0:
         raise AnchorMissing("no arm taking a bare global name from the source found")
+
+
+# ----------------------------------------------------------------------------- C01 / C15 (a store makes a memory claim stale)
+
+
+FLAGS_STORE_EXCEPTIONS = {
+    "generate_strobe_statement:STA": "strobe(reg) stores whatever the accumulator holds to a constant-address `char *` (a hardware strobe register): the value stored "
+                                     "is unspecified by the language, so no program can depend on what a read-back of that cell would tell - and a read of a device "
+                                     "register is not a read of memory",
+}
+
+
+@rule("T-FLAGS-STORE", floor=6,
+      text="a state `FlagsState::Absolute/AbsoluteX/AbsoluteY(v ..)` says N/Z are those of the memory operand v.  A store changes memory and no flag: on "
+           "every normal path of every generator function, after the last store it emits to a memory operand (STA/STX/STY through asm()), `flags` is "
+           "assigned again (to the operand stored, to a register, or to Unknown) - or the path tests that `flags` names no memory before it returns.  "
+           "Otherwise a claim made earlier for that cell survives the store: `a = b; a = X; if (a)` branched on the flags of b")
+def t_flags_store(facts, res, tier):
+    from walker import EnumV, Sym
+    mn_universe = facts.enum_variants("AsmMnemonic")
+    per = {}
+    # functions whose whole body is `if matches!(self.flags, <all three memory states>) { self.flags = Unknown }`
+    killers = set()
+    for fn in genmodel.gen_fns(facts):
+        st0 = fn["body"].get("stmts") or []
+        if len(st0) == 1 and st0[0].get("k") == "if" and st0[0].get("else") is None:
+            c = st0[0]["cond"]
+            if c.get("k") == "macro" and c.get("name") == "matches" and expr_text(c.get("e") or {}).replace(" ", "") == "self.flags" and c.get("pat") is not None and c.get("guard") is None:
+                alts = c["pat"].get("alts") if c["pat"].get("k") == "or" else [c["pat"]]
+                vs = {(a.get("segs") or ["?"])[-1] for a in alts}
+                body = [expr_text(x).replace(" ", "") for x in (st0[0]["then"].get("stmts") or [])]
+                if {"Absolute", "AbsoluteX", "AbsoluteY"} <= vs and body == ["self.flags=FlagsState::Unknown"]:
+                    killers.add(fn["name"])
+    for k in sorted(killers):
+        res.inst("T-FLAGS-STORE:forgets-memory-claims:%s" % k, True, None)
+    for fn in genmodel.gen_fns(facts):
+        if fn["name"] in ("new", "asm", "sasm", "sasm_protected", "label", "asm_save_y", "asm_restore_y") or fn["name"] in killers:
+            continue
+        if not any(_self_call(x, ("asm",)) for x in walk(fn["body"])):
+            continue
+        try:
+            paths = genmodel.fn_paths(facts, fn)
+        except Exception as e:
+            raise AnchorMissing("paths of %s: %s" % (fn["name"], e))
+        for kind, val, st in paths:
+            if genmodel.is_error_exit(val):
+                continue
+            last_store = None
+            assigned_after = False
+            for ev in st.events:
+                if ev["kind"] == "asm" and len(ev["args"]) > 1:
+                    m = genmodel.domain_of(st, ev["args"][0], facts, universe=mn_universe) or set()
+                    opv = ev["args"][1]
+                    memop = isinstance(opv, EnumV) and opv.variant in ("Absolute", "AbsoluteX", "AbsoluteY") or not isinstance(opv, EnumV)
+                    if isinstance(opv, Sym):
+                        dom = genmodel.domain_of(st, opv, facts)
+                        if dom is not None and set(dom) <= {"Tmp"}:
+                            memop = False   # cctmp is not a cell a flags state can name
+                    if m and m <= {"STA", "STX", "STY"} and memop and not (isinstance(opv, EnumV) and opv.variant == "Tmp"):
+                        last_store = (ev, "/".join(sorted(m)))
+                        assigned_after = False
+                elif ev["kind"] == "call" and ev.get("callee") in killers:
+                    assigned_after = True
+                elif ev["kind"] == "set" and ev["field"] == "flags":
+                    assigned_after = True
+                elif ev["kind"] in ("label",):
+                    assigned_after = True
+                elif ev["kind"] == "call" and str(ev.get("callee", "")).startswith("generate_"):
+                    # a nested generator step decides the flags itself (judged there)
+                    assigned_after = True
+            if last_store is None:
+                continue
+            key = "T-FLAGS-STORE:%s:%s" % (fn["name"], last_store[1])
+            d = per.setdefault(key, {"fn": fn, "ok": 0, "bad": None})
+            if assigned_after:
+                d["ok"] += 1
+            elif d["bad"] is None:
+                d["bad"] = last_store[0]
+    for key, d in sorted(per.items()):
+        res.inst(key, True, {"paths_reassigning_flags": d["ok"], "violating": d["bad"] is not None})
+        exc = FLAGS_STORE_EXCEPTIONS.get(key.split(":", 1)[1])
+        if d["bad"] is not None and exc:
+            res.note("exception %s: %s" % (key, exc))
+            continue
+        if d["bad"] is not None:
+            res.fail(key, facts.where(d["fn"], d["bad"]["node"]), "a path through %s stores to memory and returns without assigning `flags`: a claim that N/Z describe that cell, made before the store, survives it (`a = b; a = X; if (a)` tests the flags of b)" % d["fn"]["name"])
